@@ -20,6 +20,19 @@ pub struct Observer<Endpoint: Display> {
     message_id: Option<u16>,
 }
 
+#[cfg(coap_lite_verif)]
+impl<Endpoint: Display> Observer<Endpoint> {
+    /// Verification hook: the private unacknowledged-notification counter.
+    pub fn verif_unacked(&self) -> u32 {
+        self.unacknowledged_messages.into()
+    }
+
+    /// Verification hook: the message id awaiting acknowledgement, if any.
+    pub fn verif_pending_mid(&self) -> Option<u16> {
+        self.message_id
+    }
+}
+
 /// An observed resource.
 pub struct Resource<Endpoint: Display> {
     pub observers: Vec<Observer<Endpoint>>,
